@@ -61,10 +61,16 @@ func (g *Gen) tplClosureExit() []L.Stmt {
 		case 0: // block local
 			ss = append(ss, local1(v, num(float64(10+g.n(80, "initv")))))
 			ss = append(ss, closurePair(sv, v)...)
-		case 1: // two locals, two pairs, one shared between iterations' siblings
+		case 1: // two locals, two pairs; captured in ascending or descending register order
 			ss = append(ss, local([]string{v, v + "b"}, num(1), str("two")))
-			ss = append(ss, closurePair(sv, v)...)
-			ss = append(ss, closurePair(sv, v+"b")...)
+			if g.n(2, "descending") == 0 {
+				g.class("closure:descending_capture_order")
+				ss = append(ss, closurePair(sv, v+"b")...)
+				ss = append(ss, closurePair(sv, v)...)
+			} else {
+				ss = append(ss, closurePair(sv, v)...)
+				ss = append(ss, closurePair(sv, v+"b")...)
+			}
 		case 2: // enclosing upvalue reached through two levels
 			ss = append(ss, local1(v, num(5)))
 			ss = append(ss, assign1(idx(sv, bin("+", un("#", sv), num(1))), call(paren(fn(nil, false, blk(ret(fn(nil, false, blk(ret(name(v)))))))))))
@@ -86,13 +92,36 @@ func (g *Gen) tplClosureExit() []L.Stmt {
 		}
 		return append(ss, exitStmt...)
 	}
+	// the closures may be created a few blocks deeper than the statement that leaves the scope expects
+	nest := func(ss []L.Stmt) []L.Stmt {
+		for i, n := 0, g.n(3, "nestdepth"); i < n; i++ {
+			g.class("closure:nested_block")
+			if g.n(2, "nestkind") == 0 {
+				ss = []L.Stmt{&L.DoStmt{Body: blk(ss...)}}
+			} else {
+				ss = []L.Stmt{ifs(&L.TrueExpr{}, blk(ss...), nil)}
+			}
+		}
+		return ss
+	}
 	v := g.fresh("cv")
 	switch exit {
 	case 0: // fall through the end of a do block
 		out = append(out, &L.DoStmt{Body: blk(create(v, nil)...)})
 	case 1: // each loop iteration gets a fresh variable; leave by break
-		body := create(v, []L.Stmt{ifs(bin("==", name("li"), num(2)), blk(&L.BreakStmt{}), nil)})
-		out = append(out, &L.NumForStmt{Var: "li", Start: num(1), End: num(3), Body: blk(body...)})
+		body := nest(create(v, []L.Stmt{ifs(bin("==", name("li"), num(2)), blk(&L.BreakStmt{}), nil)}))
+		switch g.n(3, "looptype") {
+		case 0:
+			out = append(out, &L.NumForStmt{Var: "li", Start: num(1), End: num(3), Body: blk(body...)})
+		case 1:
+			// while loop with its own counter
+			g.class("closure:while_loop")
+			out = append(out, local1("li", num(0)), &L.WhileStmt{Cond: bin("<", name("li"), num(3)), Body: blk(append([]L.Stmt{assign1(name("li"), bin("+", name("li"), num(1)))}, body...)...)})
+		default:
+			// repeat-until: the loop goes round through a false condition that reads a body local
+			g.class("closure:repeat_loop")
+			out = append(out, local1("li", num(0)), &L.RepeatStmt{Body: blk(append([]L.Stmt{assign1(name("li"), bin("+", name("li"), num(1))), local1("done", bin(">=", name("li"), num(3)))}, body...)...), Cond: name("done")})
+		}
 	case 2: // loop variable itself captured, loop runs to completion
 		out = append(out, &L.NumForStmt{Var: v, Start: num(1), End: num(3), Body: blk(closurePair(sv, v)...)})
 	case 3: // generic for variables captured
@@ -102,7 +131,7 @@ func (g *Gen) tplClosureExit() []L.Stmt {
 		out = append(out, &L.DoStmt{Body: blk(&L.DoStmt{Body: blk(create(v, []L.Stmt{ifs(&L.TrueExpr{}, blk(&L.GotoStmt{Label: lbl}), nil)})...)}, emit(str("not reached")))}, &L.LabelStmt{Name: lbl}, &L.DoStmt{Body: blk()})
 	case 5: // continue-style goto inside a loop
 		lbl := g.fresh("L")
-		body := create(v, []L.Stmt{ifs(bin("<", name("li"), num(3)), blk(&L.GotoStmt{Label: lbl}), nil)})
+		body := nest(create(v, []L.Stmt{ifs(bin("<", name("li"), num(3)), blk(&L.GotoStmt{Label: lbl}), nil)}))
 		body = []L.Stmt{&L.DoStmt{Body: blk(body...)}, emit(str("tail of iteration"), name("li")), &L.LabelStmt{Name: lbl}}
 		out = append(out, &L.NumForStmt{Var: "li", Start: num(1), End: num(3), Body: blk(body...)})
 	case 6: // backward goto: every pass through the declaration creates a new variable
@@ -114,7 +143,7 @@ func (g *Gen) tplClosureExit() []L.Stmt {
 		if g.n(2, "tailexit") == 0 {
 			r = ret(call(name("hostf"), num(1), str("tail")))
 		}
-		fe := fn([]string{v + "p"}, false, blk(append(closurePair(sv, v+"p"), create(v, []L.Stmt{r})...)...))
+		fe := fn([]string{v + "p"}, false, blk(append(closurePair(sv, v+"p"), nest(create(v, []L.Stmt{r}))...)...))
 		out = append(out, emit(call(paren(fe), num(33))))
 	case 8: // error caught by pcall / xpcall / Go-side panic caught by pcall
 		var raise L.Stmt
@@ -129,12 +158,19 @@ func (g *Gen) tplClosureExit() []L.Stmt {
 			raise = local1("bad", bin("+", &L.NilExpr{}, num(1)))
 		}
 		// the failing function is a few frames deep
-		inner := fn(nil, false, blk(create(v, []L.Stmt{raise})...))
+		inner := fn(nil, false, blk(nest(create(v, []L.Stmt{raise}))...))
 		mid := fn(nil, false, blk(local1("m1", num(1)), callStmt(call(paren(inner))), ret(name("m1"))))
 		if g.n(2, "xp") == 0 {
 			g.class("closure:exit_xpcall")
 			h := fn([]string{"e"}, false, blk(ret(str("handled"))))
-			out = append(out, emit(call(name("xpcall"), mid, h)))
+			if g.n(3, "handlerfails") == 0 {
+				// the message handler fails too: what xpcall then returns after false is not fixed, the closures are
+				g.class("closure:exit_xpcall_handler_fails")
+				h = fn([]string{"e"}, false, blk(callStmt(call(name("error"), str("handler failed")))))
+				out = append(out, emit(paren(call(name("xpcall"), mid, h))))
+			} else {
+				out = append(out, emit(call(name("xpcall"), mid, h)))
+			}
 		} else {
 			out = append(out, emit(call(name("select"), num(1), call(name("pcall"), mid))))
 		}
@@ -155,6 +191,12 @@ func (g *Gen) tplClosureExit() []L.Stmt {
 	}
 	out = append(out, g.noise()...)
 	out = append(out, useSaved(saved)...)
+	if g.n(3, "freshfn") == 0 {
+		// inside a function of its own, without parameters: the first local is register 0
+		g.class("closure:in_fresh_function")
+		wf := g.fresh("wf")
+		return []L.Stmt{local1(wf, fn(nil, false, blk(out...))), callStmt(call(name(wf)))}
+	}
 	return []L.Stmt{&L.DoStmt{Body: blk(out...)}}
 }
 
